@@ -25,6 +25,7 @@ HARNESS = {
     "shim_length_count": dict(kind="shim", proved=False, fns=["nom::multi::length_count"], bound="input <= 4 bytes, counts 0..3, cheap element parser (all result classes)"),
     "shim_alt": dict(kind="shim", proved=False, fns=["nom::branch::alt"], bound="input <= 4 bytes, two cheap branches (all result classes)"),
     "shim_be64": dict(kind="fd", proved=True, fns=["nom::number::streaming::be_u64"], bound="10-byte buffer, symbolic length (the function reads <= 8 bytes)"),
+    "shim_tag": dict(kind="fd", proved=True, fns=["nom::bytes::streaming::tag (2-byte tag)"], bound="4-byte buffer, symbolic length, every tag value (the function reads <= 2 bytes)"),
     "shim_verify": dict(kind="shim", proved=False, fns=["nom::combinator::verify"], bound="input <= 4 bytes, cheap element parser, predicate threshold full domain"),
     "shim_pair": dict(kind="shim", proved=False, fns=["nom::sequence::pair"], bound="input <= 4 bytes, cheap element parser (all result classes, non-consuming success included)"),
     "shim_map_parser": dict(kind="shim", proved=False, fns=["nom::combinator::map_parser"], bound="input <= 5 bytes, count usize full domain, cheap inner parser"),
@@ -153,10 +154,10 @@ PROPS = {
     ),
     "C05": dict(
         level="model_checking",
-        level_text="Dispatch tables, GREASE/Unknown preservation, exact consumption, 'length beyond the block never yields a value', agreement of the three dispatchers and tag == wire type: unbounded deductive proof (Verus) on the real dispatcher bodies for all 65536 types and all data lengths, content parsers abstract. Content parsers, tag-specific parsers and list parsers: contracts checked by Kani on the compiled code, complete in byte contents and in every u8/u16 parameter, bounded in input length (bounded model checking, not proof).",
+        level_text="Dispatch tables, GREASE/Unknown preservation, exact consumption, 'length beyond the block never yields a value', agreement of the three dispatchers and tag == wire type: unbounded deductive proof (Verus) on the real dispatcher bodies for all 65536 types and all data lengths, content parsers abstract. The 16 tag-specific parsers: unbounded (Verus, unit tagged, on the real bodies): each accepts exactly its own two type bytes (nom's streaming tag: a mismatching byte is Error(Tag) even on a short input), frames the u16-length-prefixed data and returns its content parser's verdict on exactly the declared bytes; lemmas: any other wire type is rejected, and the outcome equals the generic dispatcher's for that type (per-row premise 'the generic table sends this type to the same content parser' proved for all 16 rows; heartbeat additionally rejects a declared length other than 1 before framing - the recorded known finding). List parsers: explicit accumulate-while-Ok loops (units ext_lists, ext_lists2). Content parsers: 20 of them proved in Verus (units ext_contents, ext_lists2, bodies); all of them, and the tag-specific and list parsers again, have contracts checked by Kani on the compiled code, complete in byte contents and in every u8/u16 parameter, bounded in input length (bounded model checking, not proof).",
         level_note="Trusted: nom shim contracts be_u16/length_data (assumed in Verus, checked by Kani shim_* harnesses on the real nom); each content parser is an uninterpreted function in Verus with the single assumed fact 'on success it returns its own variant', which is an obligation of that parser's Kani leaf harness; IANA code-point table transcribed by hand (verus/units/dispatch_ext.py TABLE); rewrites R0, R5, R6, R8 (From::from lifted to a free fn).",
         technique="contract-based deductive verification: Verus postconditions on extracted dispatchers + Kani contract harnesses per content parser",
-        verus=["dispatch_ext", "ext_lists", "bodies", "ext_contents", "ext_lists2"],
+        verus=["dispatch_ext", "ext_lists", "bodies", "ext_contents", "ext_lists2", "tagged"],
         kani=[dict(quick=["fd_ext_max_fragment_length", "fd_ext_heartbeat", "fd_ext_record_size_limit", "fd_ext_encrypt_then_mac", "fd_ext_extended_master_secret",
                           "fd_ext_post_handshake_auth", "fd_ext_npn", "leaf_ext_ec_point_formats", "leaf_ext_renegotiation_info", "leaf_ext_psk_modes", "leaf_ext_sct",
                           "leaf_ext_unknown", "leaf_ext_elliptic_curves", "leaf_named_groups", "leaf_ext_signature_algorithms", "leaf_ext_alpn", "leaf_ext_sni", "leaf_ext_esni",
